@@ -7,7 +7,8 @@ requests executed on one environment, each request in its own forked child:
     Eups(readCache=False, keep, max_depth); selectVRO(tag, versionName, inexact_version); eups.app.setup(...)
 
 Observables per request: outcome (ok | notfound | raised), the VRO, SETUP_* records, *_DIR, every variable a
-table names as canonical element lists, aliases, the command list's kind, the deepest nesting of Eups.setup.
+table names as canonical element lists, aliases, the command list of eups.app.setup string by string (`sh`: against
+Model/Setup composed with Model/ShellEmit's rendering, see sh_comparable / sh_canon), the deepest nesting of Eups.setup.
 Oracle (ii) is computed from the graph and the implementation's outputs only (never from the model)."""
 import contextlib
 import io
@@ -647,7 +648,8 @@ def run_history(case):
             r = r[1]
             res = {"before": strip(env, S), "outcome": r["outcome"], "exc": r["exc"], "vro": r["vro"], "nest": r["nest"],
                    "after": strip(r["env"], S), "aliases": r["aliases"], "unaliased": r["unaliased"],
-                   "cmds": [strip_text(c, S) for c in r["cmds"]] if r["cmds"] is not None else None}
+                   "cmds": [strip_text(c, S) for c in r["cmds"]] if r["cmds"] is not None else None,
+                   "cmds_raw": r["cmds"], "roots": list(Ss)}
             if r["outcome"] == "ok":
                 shell, defs, undefs = apply_cmds(env, r["cmds"])
                 res["shell"] = strip(shell, S)
@@ -712,11 +714,33 @@ def canon_env(G_, env):
     return {"recs": recs, "dirs": dirs, "paths": paths, "vars": vars_}
 
 
+def sh_comparable(G_, r):
+    """Is the command list compared string by string?  Yes unless a path variable of the environment the request
+    started from holds empty elements (`a::b`, a leading or trailing delimiter): the element lists of the setup model
+    do not carry them (C12 owns the string level), so the exported *string* is not determined by the model there."""
+    for var, dl in G_.pathvars.items():
+        v = r["before"].get(var)
+        if v is not None and (v == "" or "" in v.split(dl)):
+            return False
+    return True
+
+
+def sh_canon(G_, cmds):
+    """The command strings as compared: sorted (the order is the dict order of os.environ), without `export <P>_DIR=none`
+    for products declared without a directory — the model tags that value by (product, version), so it re-exports it when
+    the version changes although the string does not (the environment the shell ends with is checked by the clause
+    commands_realise_environment either way)."""
+    nodir = {"export %s_DIR=none" % d["name"].upper() for d in G_.g["decls"] if d["sub"] is None}
+    return sorted(c for c in cmds if c not in nodir)
+
+
 def canon_impl(G_, r):
     """The observables of one request on the implementation."""
     if "before" not in r:
         return {"outcome": r["outcome"]}
     out = {"outcome": r["outcome"], "vro": r["vro"], "deep": r["nest"] > FUEL}
+    if r.get("cmds_raw") is not None and sh_comparable(G_, r):
+        out["sh"] = sh_canon(G_, r["cmds"])          # the command strings of eups.app.setup
     if r["outcome"] in ("ok", "raised"):
         out["env"] = canon_env(G_, r["after"])
     if r["outcome"] == "ok":
@@ -760,20 +784,27 @@ def model_db(G_):
     return {"decls": decls, "tags": tags}
 
 
-def model_request(G_, db, before, req):
+def model_request(G_, db, before, req, roots=None):
     env = canon_env(G_, before)
     env = dict(env, recs={n: list(unvk(v)) if not v.startswith("RAW:") else [v, 99] for n, v in env["recs"].items()})
-    return {"m": "c01", "op": req["op"], "fuel": FUEL, "db": db, "env": env,
-            "req": {"name": req["name"], "ver": req["ver"], "keep": req["keep"], "max_depth": req["max_depth"],
-                    "inexact": req["inexact"], "tags": req["tags"], "path": req_path(req)}}
+    out = {"m": "c01", "op": req["op"], "fuel": FUEL, "db": db, "env": env,
+           "req": {"name": req["name"], "ver": req["ver"], "keep": req["keep"], "max_depth": req["max_depth"],
+                   "inexact": req["inexact"], "tags": req["tags"], "path": req_path(req)}}
+    if roots:
+        # end to end: the model renders the command strings of eups.app.setup with the real stack roots
+        out["layout"] = {"roots": list(roots), "delims": dict(G_.pathvars), "flavor": "Linux",
+                         "subst": [[ROOTS[k], roots[k]] for k in reversed(range(len(roots)))]}
+    return out
 
 
-def canon_model(ans):
+def canon_model(ans, sh_roots=None, G_=None):
     if "bad-op" in ans:
         return {"outcome": "bad-op:" + str(ans["bad-op"])}
     if ans["out"] == "fuel":
         return {"outcome": "fuel", "vro": ans["vro"], "deep": True}
     out = {"outcome": ans["out"], "vro": ans["vro"], "deep": False}
+    if sh_roots is not None and ans.get("sh") is not None:
+        out["sh"] = sh_canon(G_, [strip_text(c, sh_roots) for c in ans["sh"]])
     if ans["out"] in ("ok", "raised"):
         e = ans["env"]
         out["env"] = {"recs": {n: (vk(r[0], r[1]) if r[1] != 99 else r[0]) for n, r in e["recs"].items()},
@@ -1154,14 +1185,15 @@ def run_cases(ctx, cases, workers=12):
         n0 = len(reqs)
         for req, r in zip(case["history"], raw):
             if "before" in r:
-                reqs.append(model_request(G_, db, r["before"], req))
+                reqs.append(model_request(G_, db, r["before"], req, r.get("roots")))
         spans.append((n0, len(reqs) - n0))
     answers = ctx.lean.ask_many(reqs)
     out = []
     for case, raw, (s, n) in zip(cases, raws, spans):
         G_ = G(case["graph"])
         impl = [canon_impl(G_, r) for r in raw]
-        model = [canon_model(a) for a in answers[s:s + n]]
+        model = [canon_model(a, sh_roots=(r.get("roots") if "sh" in im else None), G_=G_)
+                 for a, im, r in zip(answers[s:s + n], impl, raw)]
         out.append((case, G_, raw, impl, model))
     return out
 
@@ -1184,6 +1216,10 @@ def evaluate(ctx, pid, cases, stats, workers=12, extra=None):
             diffs = compare(im, mo)
             for d in diffs:
                 ctx.disagree(d, dict(inp, step=i), im, mo)
+            if "sh" in im:
+                stats["sh_compared"] = stats.get("sh_compared", 0) + 1
+                if any(c.startswith("export ") and "'" in c for c in im["sh"]):
+                    stats["sh_quoted"] = stats.get("sh_quoted", 0) + 1
             if im["outcome"] == "ok":
                 b, a = canon_env(G_, r["before"]), canon_env(G_, r["after"])
                 if a != b:
